@@ -207,6 +207,26 @@ func c15one(c *core.Ctx, t *gen.T, label string, recursive bool) {
 		c.Count("codec.refused", 1)
 	}
 	c.Sample(map[string]any{"type": trunc(label, 300), "schema": trunc(ir.JSON(), 300)})
+	// the returned Schema belongs to the caller. For types without registered schemas in them (whose nodes are
+	// the registrant's own values) everything in it is overwritten; generation afterwards is as before.
+	kinds := map[gen.Kind]int{}
+	t.Kinds(kinds)
+	for k := range kinds {
+		if model.Registered(k) != nil {
+			return
+		}
+	}
+	scribbleSchema(&r1.s, map[*avro.SchemaObject]bool{})
+	r2 := c15call(rt)
+	if r2.err != nil || r2.pan != nil {
+		c.Violate("determinism", fmt.Sprintf("after the caller modified the schema it had been given, SchemaForType fails for %s: %v %v", label, r2.err, r2.pan), map[string]any{"type": label})
+		return
+	}
+	if d := refavro.Diff(libToIR(r2.s), ir, "schema"); d != "" {
+		c.Violate("determinism", fmt.Sprintf("after the caller modified the schema it had been given, SchemaForType returns a different schema for %s: %s", label, d), map[string]any{"type": label})
+		return
+	}
+	c.Count("regenerated-after-scribble", 1)
 }
 
 // registration scenario: registered types map to their registered schema, in every position, and the
@@ -466,7 +486,7 @@ func init() {
 		ID:        "C15",
 		Level:     "exploration",
 		Technique: "runtime monitoring: SchemaForType over thousands of generated and static struct types (every kind, tag combination, recursive types in child processes) compared with an independent transcription of the documented mapping; determinism by repeated and concurrent evaluation",
-		Rule: "static corpus (named, anonymous, embedded, reused and self-referential structs) plus reflect.StructOf types over every Go kind and tag combination; each type evaluated 6 times (3 concurrently); " +
+		Rule: "static corpus (named, anonymous, embedded, reused and self-referential structs) plus reflect.StructOf types over every Go kind and tag combination; each type evaluated 6 times (3 concurrently); for types without registered schemas the returned schema is overwritten at every depth and generation repeated; self-containing types whose cycle passes through anonymous structs only; " +
 			"distinct_nontrivial = distinct type shapes covered by the documented mapping whose schema was compared field by field",
 		Explanation: "E3 model.ExpectedSchema is a transcription of the property's sentence. Kinds the sentence does not mention (fixed-size arrays, non-string-keyed maps, interface, chan, func, complex, uintptr, unsafe.Pointer) are 'unspecified': only totality, determinism and codec-or-error are checked for them. Unsigned integers must be refused. Validity rules: no union directly in a union, no repeated branch, each named type defined once. Self-referential types must yield an error (a stack overflow kills the worker and is attributed by the journal).",
 		Assumptions: []string{"record names/namespaces are not compared (the statement is silent)", "open finding c15.named-struct-reused: the 'defined once' rule is not evaluated on types that use one named struct at several positions"},
